@@ -50,9 +50,8 @@ Proof.
                           | EPow b x => EMul v [(b, x)]
                           | _ => EMul v [(k, E1)]
                           end = false).
-  { destruct k; try (cbn [any_node guard_node is_reserved_funsym is_piecewise orb existsb fst snd E1]; rewrite H; reflexivity).
-    - apply gn_mul_from_dict. cbn [any_node guard_node is_reserved_funsym is_piecewise orb] in H. exact H.
-    - cbn [any_node guard_node is_reserved_funsym is_piecewise orb existsb fst snd] in *. rewrite H. reflexivity. }
+  { destruct k; try (cbn [any_node guard_node is_reserved_funsym is_piecewise orb existsb fst snd E1] in *; rewrite ?H; reflexivity).
+    apply gn_mul_from_dict. cbn [any_node guard_node is_reserved_funsym is_piecewise orb] in H. exact H. }
   destruct v; try exact G.
   destruct (z =? 0)%Z; [reflexivity|]. destruct (z =? 1)%Z; [exact H|exact G].
 Qed.
@@ -101,6 +100,9 @@ Section Sem.
   Variable C : ctors.
   Variable D : Type.
   Variable sem : (list N -> D) -> expr -> D.
+  (* the class of input trees for which the semantics respects the library's eq (e.g. well-formed
+     trees, C01); it must be inherited by get_args *)
+  Variable ok : expr -> Prop.
 
   Definition sem_args (r' r : list N -> D) (l' l : list expr) : Prop :=
     Forall2 (fun a' a => sem r' a' = sem r a) l' l.
@@ -108,7 +110,8 @@ Section Sem.
   Record sem_laws : Prop := mkSL {
     sl_sym : forall r n, sem r (ESym n) = r n;
     sl_ext : forall r r' e, (forall n, In n (syms e) -> r n = r' n) -> sem r e = sem r' e;
-    sl_key : forall r a b, (hash b =? hash a) && expr_eqb a b = true -> sem r a = sem r b;
+    sl_ok_args : forall e a, ok e -> In a (get_args e) -> ok a;
+    sl_key : forall r a b, ok a -> ok b -> (hash b =? hash a) && expr_eqb a b = true -> sem r a = sem r b;
     sl_add : forall r r' co d l v, c_add C l = Ok v -> sem_args r' r l (get_args (EAdd co d)) -> sem r' v = sem r (EAdd co d);
     sl_mul : forall r r' co d l v, c_mul C l = Ok v -> sem_args r' r l (get_args (EMul co d)) -> sem r' v = sem r (EMul co d);
     sl_pow : forall r r' b x b' x' v, c_pow C b' x' = Ok v -> sem r' b' = sem r b -> sem r' x' = sem r x ->
@@ -165,8 +168,8 @@ Section Sem.
     - intros s r Hin. assert (Hk : In s (map fst L)) by (apply in_map_iff; exists (s, r); auto).
       rewrite Hm in Hk. apply in_map_iff in Hk. destruct Hk as (k & <- & Hk). apply Hall. exact Hk.
     - rewrite Hm. apply NoDup_map_sym_x.
-      assert (StronglySorted N.lt (rev ks)) by (apply sorted_rev; exact Hs).
-      apply sorted_lt_NoDup in H0. apply NoDup_rev in H0. rewrite rev_involutive in H0. exact H0.
+      pose proof (sorted_lt_NoDup _ (sorted_rev _ Hs)) as ND. apply NoDup_rev in ND.
+      rewrite rev_involutive in ND. exact ND.
   Qed.
 
   Definition chained (st : rb_state) : Prop := chain excl (rb_reps st) 0 (rb_next st).
@@ -196,9 +199,9 @@ Section Sem.
   Qed.
 
   Definition subs_sem (st : rb_state) : Prop :=
-    forall o s, In (o, s) (rb_subs st) -> sem (val (rb_reps st)) s = sem r0 o.
+    forall o s, In (o, s) (rb_subs st) -> ok o /\ sem (val (rb_reps st)) s = sem r0 o.
   Definition K (st : rb_state) : Prop := J env st /\ chained st /\ subs_sem st.
-  Definition pre (e : expr) : Prop := excl_ok env e /\ any_node gp e = false.
+  Definition pre (e : expr) : Prop := (excl_ok env e /\ any_node gp e = false) /\ ok e.
 
   Definition ap_sem (ap : rb_state -> expr -> res ares) : Prop :=
     forall st e x, ap st e = Ok x -> K st -> pre e ->
@@ -209,15 +212,14 @@ Section Sem.
   Proof. intros st st' (new & E & _). exists new. exact E. Qed.
 
   Lemma pre_args : forall e a, pre e -> In a (get_args e) -> pre a.
-  Proof. intros e a [H1 H2] Hin. split; [eapply excl_ok_args; eassumption|eapply guard_args; eassumption]. Qed.
+  Proof.
+    intros e a [[H1 H2] H3] Hin. split; [split; [eapply excl_ok_args; eassumption|eapply guard_args; eassumption]|].
+    eapply (sl_ok_args SL); eassumption.
+  Qed.
 
   Section Visit.
     Variable ap : rb_state -> expr -> res ares.
     Hypothesis AP : ap_sem ap.
-
-    Lemma ap_flow : ap_ok C env ap.
-    Proof.
-      intros st e x H HJ He. Abort.
 
     Lemma apply_list_sem : forall l st x, apply_list ap st l = Ok x -> K st -> (forall a, In a l -> pre a) ->
       K (fst x) /\ (forall v, In v (snd x) -> good env (fst x) v) /\ ext excl st (fst x) /\
@@ -238,9 +240,10 @@ Section Sem.
       sem (val (rb_reps (fst x))) (fst (snd x)) = sem r0 e.
     Proof.
       intros st e x H HK He.
+      assert (Hex : excl_ok env e) by apply He.
       assert (SAME : K st /\ good env st e /\ ext excl st st /\ sem (val (rb_reps st)) e = sem r0 e).
-      { split; [exact HK|]. split; [apply excl_ok_good; apply He|]. split; [apply ext_refl|].
-        apply sem_orig; [apply HK|apply He]. }
+      { split; [exact HK|]. split; [apply excl_ok_good; exact Hex|]. split; [apply ext_refl|].
+        apply sem_orig; [apply HK|exact Hex]. }
       destruct e as [nu|nm|nm idx|nm|co d|co d|pb px|code fa|code fa fb|code l|nm l|code la lb|da dxs|sa sd|pl|bb|is ie lo ro|code];
         cbn [rb_visit] in H; try (inv_ok H; exact SAME).
       - (* Add *) stepn H r1 E1. stepn H r2 E2. inv_ok H. cbn [fst snd].
@@ -259,8 +262,8 @@ Section Sem.
         destruct (AP _ _ _ E1 HK Hb) as (K1 & G1 & X1 & S1). destruct (AP _ _ _ E2 K1 Hx) as (K2 & G2 & X2 & S2).
         assert (X : ext excl st (fst r2)) by (eapply ext_trans; eassumption).
         destruct (snd (snd r1) && snd (snd r2)).
-        + inv_ok H. cbn [fst snd]. split; [exact K2|]. split; [apply excl_ok_good; apply He|]. split; [exact X|].
-          apply sem_orig; [apply K2|apply He].
+        + inv_ok H. cbn [fst snd]. split; [exact K2|]. split; [apply excl_ok_good; exact Hex|]. split; [exact X|].
+          apply sem_orig; [apply K2|exact Hex].
         + stepn H r3 E3. inv_ok H. cbn [fst snd]. split; [exact K2|]. split; [|split; [exact X|]].
           * intros n Hn. destruct (cs_pow C CS _ _ _ _ E3 Hn) as [Q|Q];
               [exact (good_grows _ _ _ _ (ext_grows _ _ X2) G1 n Q)|exact (G2 n Q)].
@@ -270,8 +273,8 @@ Section Sem.
         stepn H r1 E1. assert (Ha : pre fa) by (apply (pre_args _ fa He); cbn [get_args]; auto with datatypes).
         destruct (AP _ _ _ E1 HK Ha) as (K1 & G1 & X1 & S1).
         destruct (expr_eqb (fst (snd r1)) fa).
-        + inv_ok H. cbn [fst snd]. split; [exact K1|]. split; [apply excl_ok_good; apply He|]. split; [exact X1|].
-          apply sem_orig; [apply K1|apply He].
+        + inv_ok H. cbn [fst snd]. split; [exact K1|]. split; [apply excl_ok_good; exact Hex|]. split; [exact X1|].
+          apply sem_orig; [apply K1|exact Hex].
         + stepn H r2 E2. inv_ok H. cbn [fst snd]. split; [exact K1|]. split; [|split; [exact X1|]].
           * intros n Hn. apply G1. eapply cs_f1; eassumption.
           * eapply (sl_f1 SL); eassumption.
@@ -281,8 +284,8 @@ Section Sem.
         destruct (AP _ _ _ E1 HK Ha) as (K1 & G1 & X1 & S1). destruct (AP _ _ _ E2 K1 Hb) as (K2 & G2 & X2 & S2).
         assert (X : ext excl st (fst r2)) by (eapply ext_trans; eassumption).
         destruct (snd (snd r1) && snd (snd r2)).
-        + inv_ok H. cbn [fst snd]. split; [exact K2|]. split; [apply excl_ok_good; apply He|]. split; [exact X|].
-          apply sem_orig; [apply K2|apply He].
+        + inv_ok H. cbn [fst snd]. split; [exact K2|]. split; [apply excl_ok_good; exact Hex|]. split; [exact X|].
+          apply sem_orig; [apply K2|exact Hex].
         + stepn H r3 E3. inv_ok H. cbn [fst snd]. split; [exact K2|]. split; [|split; [exact X|]].
           * intros n Hn. destruct (cs_f2 C CS _ _ _ _ _ E3 Hn) as [Q|Q];
               [exact (good_grows _ _ _ _ (ext_grows _ _ X2) G1 n Q)|exact (G2 n Q)].
@@ -297,15 +300,15 @@ Section Sem.
       - (* FunSym: the guard excludes the reserved names *)
         stepn H r1 E1.
         destruct (apply_list_sem _ _ _ E1 HK (fun a Ha => pre_args _ a He Ha)) as (K1 & G1 & X1 & S1).
-        destruct He as [_ Hg]. cbn [any_node guard_node is_reserved_funsym is_piecewise] in Hg.
-        apply orb_false_iff in Hg. destruct Hg as [Hg _]. rewrite orb_false_r in Hg.
+        destruct He as [[_ Hg] _]. cbn [any_node guard_node is_reserved_funsym is_piecewise] in Hg.
+        apply orb_false_iff in Hg. destruct Hg as [Hg _]. unfold guard_node, is_reserved_funsym, is_piecewise in Hg. rewrite orb_false_r in Hg.
         apply orb_false_iff in Hg. destruct Hg as [Hg Hg3]. apply orb_false_iff in Hg. destruct Hg as [Hg1 Hg2].
         rewrite Hg1, Hg2, Hg3 in H. inv_ok H. cbn [fst snd].
         split; [exact K1|]. split; [|split; [exact X1|]].
         + intros n Hn. cbn [syms] in Hn. apply in_flat_map in Hn. destruct Hn as (a & Ha & Hn). exact (G1 a Ha n Hn).
         + apply (sl_funsym SL). exact S1.
       - (* Pw: excluded by the guard *)
-        destruct He as [_ Hg]. cbn [any_node guard_node is_reserved_funsym is_piecewise orb] in Hg. discriminate.
+        destruct He as [[_ Hg] _]. cbn [any_node] in Hg. unfold guard_node, is_reserved_funsym, is_piecewise in Hg. rewrite orb_true_r in Hg. discriminate.
     Qed.
   End Visit.
 
@@ -321,44 +324,47 @@ Section Sem.
   Lemma rb_apply_sem : forall fuel, ap_sem (rb_apply C env fuel).
   Proof.
     induction fuel as [|f IH]; intros st e x H HK He; cbn [rb_apply] in H; [discriminate|].
+    assert (Hex : excl_ok env e) by apply He.
+    assert (Hoke : ok e) by apply He.
     destruct (is_atom e).
-    { inv_ok H. cbn [fst snd]. split; [exact HK|]. split; [apply excl_ok_good; apply He|]. split; [apply ext_refl|].
-      apply sem_orig; [apply HK|apply He]. }
+    { inv_ok H. cbn [fst snd]. split; [exact HK|]. split; [apply excl_ok_good; exact Hex|]. split; [apply ext_refl|].
+      apply sem_orig; [apply HK|exact Hex]. }
     destruct (bmap_find e (rb_subs st)) as [s|] eqn:EF.
     { inv_ok H. cbn [fst snd]. split; [exact HK|].
       destruct (bmap_find_key _ _ _ EF) as (k' & Hin & Hkey). destruct HK as (HJ & Hch & HS).
       split; [|split; [apply ext_refl|]].
       - destruct HJ as [_ HSo]. destruct (HSo _ _ Hin) as (n & r & -> & Hr). intros m Hm. cbn [syms] in Hm.
         destruct Hm as [<-|[]]. right. exists r. exact Hr.
-      - rewrite (HS _ _ Hin). symmetry. apply (sl_key SL). exact Hkey. }
+      - destruct (HS _ _ Hin) as [Hok' Hs']. rewrite Hs'. symmetry. apply (sl_key SL); assumption. }
     rewrite no_opt in H. cbn [bmap_find] in H.
     stepn H r1 E1.
     destruct (rb_visit_sem _ IH _ _ _ E1 HK He) as (K1 & G1 & X1 & S1).
     destruct (hset_mem e (env_elim env)).
     - stepn H sk E2. inv_ok H. cbn [fst snd]. destruct sk as [s k']. cbn [fst snd].
-      apply next_symbol_spec in E2. destruct E2 as (j & Hs & Hj & Hk & Hex).
-      set (st2 := mkRB ((e, s) :: rb_subs (fst r1)) ((s, fst (snd r1)) :: rb_reps (fst r1)) k').
+      apply next_symbol_spec in E2. destruct E2 as (j & Hs & Hj & Hk & Hnex).
+      pose (st2 := mkRB ((e, s) :: rb_subs (fst r1)) ((s, fst (snd r1)) :: rb_reps (fst r1)) k').
+      change (mkRB ((e, s) :: rb_subs (fst r1)) ((s, fst (snd r1)) :: rb_reps (fst r1)) k') with st2.
       assert (X12 : ext excl (fst r1) st2).
-      { exists [(s, fst (snd r1))]. cbn [st2 rb_reps rb_next app]. split; [reflexivity|].
+      { exists [(s, fst (snd r1))]. unfold st2. cbn [rb_reps rb_next app]. split; [reflexivity|].
         cbn [chain]. exists j. repeat split; try assumption; lia. }
       destruct K1 as (J1 & C1 & SS1).
       assert (C2 : chained st2) by (eapply chained_ext; eassumption).
       assert (VS : sem (val (rb_reps st2)) s = sem r0 e).
-      { cbn [st2 rb_reps]. unfold sym_x in Hs. rewrite Hs. cbn [val]. rewrite (sl_sym SL). unfold upd.
+      { unfold st2. cbn [rb_reps]. unfold sym_x in Hs. rewrite Hs. cbn [val]. rewrite (sl_sym SL). unfold upd.
         rewrite (proj2 (bytes_eqb_eq _ _) eq_refl). exact S1. }
       assert (G2 : good env st2 s).
       { intros m Hm. unfold sym_x in Hs. rewrite Hs in Hm. cbn [syms] in Hm. destruct Hm as [<-|[]]. right.
-        exists (fst (snd r1)). cbn [st2 rb_reps]. left. rewrite Hs. reflexivity. }
+        exists (fst (snd r1)). unfold st2. cbn [rb_reps]. left. rewrite Hs. reflexivity. }
       split; [|split; [exact G2|split; [eapply ext_trans; eassumption|exact VS]]].
       split; [|split; [exact C2|]].
       + split.
-        * cbn [st2 rb_reps wfreps]. split; [exact G1|apply J1].
-        * intros o s' [Ho|Ho]; cbn [st2 rb_reps rb_subs] in *.
+        * unfold st2. cbn [rb_reps wfreps]. split; [exact G1|apply J1].
+        * unfold st2. cbn [rb_reps rb_subs]. intros o s' [Ho|Ho].
           -- injection Ho as <- <-. unfold sym_x in Hs. exists (sym_name j), (fst (snd r1)). split; [exact Hs|]. left. rewrite Hs. reflexivity.
           -- destruct J1 as [_ HSo]. destruct (HSo _ _ Ho) as (n & r & Hn & Hr). exists n, r. split; [exact Hn|right; exact Hr].
-      + intros o s' [Ho|Ho].
-        * injection Ho as <- <-. exact VS.
-        * rewrite <- (SS1 _ _ Ho). apply sem_stable; [exact C2|exact X12|].
+      + intros o s' Ho. unfold st2 in Ho. cbn [rb_subs] in Ho. destruct Ho as [Ho|Ho].
+        * injection Ho as <- <-. split; [exact Hoke|exact VS].
+        * destruct (SS1 _ _ Ho) as [Hok' Hs']. split; [exact Hok'|]. rewrite <- Hs'. apply sem_stable; [exact C2|exact X12|].
           destruct J1 as [_ HSo]. destruct (HSo _ _ Ho) as (n & r & -> & Hr). intros m Hm. cbn [syms] in Hm.
           destruct Hm as [<-|[]]. right. exists r. exact Hr.
     - inv_ok H. cbn [fst snd]. split; [exact K1|]. split; [exact G1|]. split; [exact X1|exact S1].
@@ -376,3 +382,52 @@ Section Sem.
       rewrite <- S1. apply sem_stable; [apply K2| |exact G1]. eapply rb_all_ext. eassumption.
   Qed.
 End Sem.
+
+(* ---------- the statement ---------- *)
+(* evaluate the replacement list front to back *)
+Fixpoint eval_reps {D : Type} (sem : (list N -> D) -> expr -> D) (reps : list (expr * expr)) (r : list N -> D)
+  : list N -> D :=
+  match reps with
+  | [] => r
+  | (ESym n, rhs) :: t => eval_reps sem t (upd D r n (sem r rhs))
+  | _ :: t => eval_reps sem t r
+  end.
+
+Lemma eval_reps_app : forall {D} (sem : (list N -> D) -> expr -> D) a b r,
+  eval_reps sem (a ++ b) r = eval_reps sem b (eval_reps sem a r).
+Proof.
+  induction a as [|[s rhs] a IH]; intros b r; cbn [app eval_reps]; [reflexivity|].
+  destruct s; apply IH.
+Qed.
+
+Lemma val_eval : forall {D} (sem : (list N -> D) -> expr -> D) r0 L,
+  val D sem r0 L = eval_reps sem (rev L) r0.
+Proof.
+  induction L as [|[s rhs] t IH]; cbn [rev val]; [reflexivity|].
+  rewrite eval_reps_app. cbn [eval_reps]. destruct s; rewrite <- ?IH; reflexivity.
+Qed.
+
+Theorem tree_cse_faithful : forall C D (sem : (list N -> D) -> expr -> D) (ok : expr -> Prop),
+  sem_laws C D sem ok -> ctors_syms C ->
+  forall fuel es reps red excl r0,
+  (forall e, In e es -> ok e) ->
+  tree_cse_with C fuel [] es = Ok (reps, red) ->
+  tree_cse_excluded fuel [] es = Ok excl ->
+  excl_complete excl es = true ->
+  cse_guard es = false ->
+  Forall2 (fun v e => sem (eval_reps sem reps r0) v = sem r0 e) red es.
+Proof.
+  intros C D sem ok SL CS fuel es reps red excl r0 Hok H HX HC HG.
+  unfold tree_cse_with in H. stepn H fr E1. stepn H r2 E2. inv_ok H.
+  unfold tree_cse_excluded in HX. rewrite E1 in HX. cbn [bind] in HX. injection HX as HX. subst excl.
+  set (env := mkEnv [] (fr_elim fr) (fr_excl fr)) in *.
+  assert (Hes : forall e, In e es -> pre ok env e).
+  { intros e He. split; [|apply Hok; exact He]. split.
+    - intros n Hn. unfold excl_complete in HC. rewrite forallb_forall in HC. specialize (HC e He).
+      rewrite forallb_forall in HC. apply HC. exact Hn.
+    - unfold cse_guard in HG. eapply existsb_false_in; eassumption. }
+  assert (K0 : K D sem ok env r0 rb_empty).
+  { split; [split; [exact I|intros o s []]|]. split; [unfold chained; cbn [rb_empty rb_reps rb_next chain]; lia|intros o s []]. }
+  destruct (rb_all_sem C D sem ok SL CS env eq_refl r0 _ _ _ _ E2 K0 Hes) as (_ & S).
+  rewrite val_eval in S. exact S.
+Qed.
